@@ -14,6 +14,8 @@ NAN2 = float("inf") - float("inf")  # a second NaN object (sign bit set on most 
 
 ATOM_VALUES = {
     "i0": 0, "i1": 1, "im1": -1, "ibig": 2 ** 53 - 1, "ibig1": 2 ** 53, "inbig1": -(2 ** 53), "ihuge": 2 ** 64,
+    # beyond the interpreters' int <-> str digit limit (4300 digits): only a hex literal can write them
+    "ivast": 16 ** 4000 - 1, "invast": -(10 ** 5000) - 7,
     "true": True, "false": False,
     "f0": 0.0, "fm0": -0.0, "f1": 1.0, "f15": 1.5, "nan": float("nan"), "nan2": NAN2, "inf": float("inf"),
     "ninf": float("-inf"),
@@ -56,7 +58,7 @@ def tag_tree(x):
     if t is bool:
         return ["b", x]
     if t is int:
-        return ["i", str(x), abs(x) < 2 ** 53]
+        return ["i", cpy.dec(x), abs(x) < 2 ** 53]
     if t is float:
         if x != x:
             return ["f", "nan"]
@@ -88,8 +90,8 @@ def atoms_tree(x):
             if type(v) is bool:
                 _LEAF_ATOM[("b", v)] = a
             elif type(v) is int:
-                _LEAF_ATOM[("i", str(v))] = a
-                _LEAF_ATOM[("s", str(v))] = a  # {"int": "<digits>"}
+                _LEAF_ATOM[("i", cpy.dec(v))] = a
+                _LEAF_ATOM[("s", cpy.dec(v))] = a  # {"int": "<digits>"}
             elif type(v) is float and v == v and v not in (float("inf"), float("-inf")):
                 _LEAF_ATOM[("f", cpy.fbits(v))] = a
             elif type(v) is str:
@@ -113,7 +115,7 @@ def atoms_tree(x):
     if t is bool:
         return ["b", _LEAF_ATOM.get(("b", x), "?")]
     if t is int:
-        return ["i", _LEAF_ATOM.get(("i", str(x)), "?int")]
+        return ["i", _LEAF_ATOM.get(("i", cpy.dec(x)), "?int")]
     if t is float:
         if x != x or x in (float("inf"), float("-inf")):
             return ["f", "?special"]
@@ -356,7 +358,7 @@ def doc_tree(x, const=False):
     if t is bool:
         return ["b", "true" if x else "false"]
     if t is int:
-        return ["i", str(x)]
+        return ["i", cpy.dec(x)]
     if x is None:
         return ["n", "none"]
     return ["x", t.__name__]
